@@ -69,7 +69,10 @@ P = {
          'transform_value and transform_row of the real iterfieldconvert and the row loop of iterrowmap are proved against the three-way policy for ALL values, converters (uninterpreted callbacks that may raise an exception of any class) and positions: errorvalue / exception object / re-raise at the failing cell or row, non-failing cells identical, lazily failing mapper results included.'
          ' Bounded stand-in for the rest: ' 'Every subset of failing positions x three policies x argument vs config default x errorvalue for convert/fieldmap/rowmap/rowmapmany vs the policy reference, stepped with next().',
          TB + ' Callbacks deterministic; callback exception classes unconstrained (any Exception subclass).', TECH_D),
- 'C20': B('Every public transform/util operator x every position of the header-only table x header shapes 0/1/3 fields: never raises, returns its zero-row definition.'),
+ 'C20': (True, 'proof',
+         'The zero-data-row instance of 37 generator functions (cut, cutout, stack, annex, addfield(s), addcolumn, addrownumbers, addfieldusingcontext, header functions, convert, select family, fills, maps, dedup, sort-merge joins incl. outer/anti/lookup, hash joins, complement/intersection, melt, values, rowslice) is executed from the real AST on header-only tables of symbolic width and field names: data loops run zero times, so without any loop contract it is proved that no exception escapes (FieldSelectionError for a non-existent field excepted) and exactly the header row is emitted.'
+         ' Bounded stand-in for every other public operator: ' 'Every public transform/util operator x every position of the header-only table x header shapes 0/1/3 fields: never raises, returns its zero-row definition.',
+         TB + ' asindices / Comparable through their contracts; header computations that filter a symbolic field list are over-approximated.', TECH_D),
 }
 REASON_NOT_YET = 'check not built yet in this round (work in progress; see DESIGN.md section 8)'
 
